@@ -43,6 +43,9 @@ Definition ascii_ops : list (string * ahandler) :=
     (* specification level *)
     ("s.a.bases"%string, with_bytes (fun bs => ofNs (map ascii_base bs)));
     ("s.a.str"%string, with_bytes (fun bs => ofNs (map ascii_base bs)));
+    (* C14 reading of the str constructor on ARBITRARY text: one base per char, the table value at ASCII chars; the
+       base at a non-ASCII char is left open (4 = any base) *)
+    ("s.a.strmask"%string, with_bytes (fun cs => ofNs (map (fun c => if c <? 128 then ascii_base c else 4) cs)));
     ("s.a.packed"%string, with_bytes (fun bs => of_ds (ds_of_dna (map ascii_base bs))));
     ("s.a.render"%string, with_bytes (fun bs => ofNs (render bs)));
     ("s.a.runs"%string, with_bytes (fun cs => VL (map ofNs (acgt_runs cs))));
